@@ -127,11 +127,12 @@ S4B(p, k) ==
                groups |-> IF v % 2 = 1 THEN <<"ig", Nasty[(v % 6) + 1]>> ELSE <<>>, sct |-> (v % 2 = 0),
                fdt_car |-> <<"delay", 1>>],
       objs |-> S4Objs(v), ops |-> S4ScriptSeq[k] ]
-S4xP == {"full", "obt"} \X {2, 5, 10, 11, 12, 30, 31, 35}
+\* ... x repetition period of the FDT carousel (the renewal before expiry must not wait for the next repetition)
+S4xP == {"full", "obt"} \X {2, 5, 10, 11, 12, 30, 31, 35} \X {1, 4, 15}
 S4xB(p, k) ==
     [ fam |-> "S4x",
       cfg |-> [scheme |-> 0, E |-> BigE, B |-> 8, interleave |-> 2, queues |-> << <<0, 2>> >>, mode |-> p[1],
-               fdt_start |-> 1048575, fdt_dur |-> p[2], tick_us |-> 1000000, fdt_car |-> <<"delay", 1>>],
+               fdt_start |-> 1048575, fdt_dur |-> p[2], tick_us |-> 1000000, fdt_car |-> <<"delay", p[3]>>],
       objs |-> << [clen |-> 5, car |-> <<"delay", 1>>, oti |-> Oti(0, 4, 2, 0, TRUE)] >>,
       ops |-> << <<"add", 1>>, <<"publish">>, <<"drain">> >> \o PollSecs(p[2] + 8) ]
 
@@ -192,6 +193,19 @@ S6B(p, k) ==
                    oti |-> Oti(p[1], S6EB(p[1])[1], S6EB(p[1])[2], IF p[1] = 0 THEN 0 ELSE 1, p[3])] >>,
       ops |-> << <<"add", 1>>, <<"publish">> >> \o (IF p[1] \in {129, 1} THEN << <<"readn", 3>> >> ELSE <<>>) ]
 
+\* S6b: the number of source blocks against the width of the SBN / Z field of the object's OWN scheme (the session OTI is
+\* much larger): symbols and blocks of one byte, lengths around the limit, from a stream that pretends to be that long
+S6bCases == << <<0, "ffff">>, <<0, "10000">>, <<0, "10001">>, <<0, "11170">>, <<1, "ffff">>, <<1, "10000">>, <<1, "10001">>,
+               <<6, "ff">>, <<6, "100">>, <<6, "101">>, <<5, "ffffff">>, <<5, "1000000">>, <<5, "1000001">> >>
+S6bP == (1..Len(S6bCases)) \X BOOLEAN
+S6bB(p, k) ==
+    LET sc == S6bCases[p[1]][1] IN
+    [ fam |-> "S6b",
+      cfg |-> [scheme |-> 0, E |-> BigE, B |-> 64, interleave |-> 1, queues |-> << <<0, 1>> >>],
+      objs |-> << [clen |-> 16, src |-> "stream", fake_len_hex |-> S6bCases[p[1]][2], md5 |-> FALSE,
+                   oti |-> Oti(sc, 1, 1, IF sc = 0 THEN 0 ELSE 1, p[2])] >>,
+      ops |-> << <<"add", 1>>, <<"publish">> >> ]
+
 \* S8: the limits of the codecs: a Raptor block has at most 8192 source symbols (RFC 5053), a RaptorQ block at most
 \* 56403 (RFC 6330), a Reed-Solomon GF(2^8) block at most 255 encoding symbols (RFC 5510); one symbol below, at and
 \* above each limit, one and two blocks
@@ -225,12 +239,12 @@ S9B(p, k) ==
 (* The parameter spaces are cartesian products (enumerated lazily by TLC, no set of big records is   *)
 (* ever built); the dependent parameter k is a second variable.                                      *)
 Params == CASE Family = "S1" -> S1P [] Family = "S3" -> S3P [] Family = "S4" -> S4P [] Family = "S4x" -> S4xP
-            [] Family = "S5" -> S5P [] Family = "S2" -> S2Cfgs [] Family = "S7" -> S7P [] Family = "S7b" -> S7bP [] Family = "S6" -> S6P [] Family = "S8" -> S8P [] Family = "S9" -> S9P [] OTHER -> {}
+            [] Family = "S5" -> S5P [] Family = "S2" -> S2Cfgs [] Family = "S7" -> S7P [] Family = "S7b" -> S7bP [] Family = "S6" -> S6P [] Family = "S6b" -> S6bP [] Family = "S8" -> S8P [] Family = "S9" -> S9P [] OTHER -> {}
 KRange(p) == CASE Family = "S1" -> S1K(p) [] Family = "S3" -> S3K(p) [] Family = "S4" -> S4K(p)
                [] Family = "S5" -> S5K(p) [] Family = "S9" -> S9K(p) [] Family = "S7" -> S7K(p) [] Family = "S7b" -> {1, 3, 1000} [] OTHER -> {0}
 Build(p, k) == CASE Family = "S1" -> S1B(p, k) [] Family = "S3" -> S3B(p, k) [] Family = "S4" -> S4B(p, k)
                  [] Family = "S4x" -> S4xB(p, k) [] Family = "S5" -> S5B(p, k) [] Family = "S7" -> S7B(p, k)
-                 [] Family = "S7b" -> S7bB(p, k) [] Family = "S6" -> S6B(p, k) [] Family = "S8" -> S8B(p, k) [] Family = "S9" -> S9B(p, k)
+                 [] Family = "S7b" -> S7bB(p, k) [] Family = "S6" -> S6B(p, k) [] Family = "S6b" -> S6bB(p, k) [] Family = "S8" -> S8B(p, k) [] Family = "S9" -> S9B(p, k)
 
 VARIABLES b, k, h
 Init == b \in Params /\ k \in KRange(b) /\ h = <<>>
